@@ -682,6 +682,11 @@ impl SubRule {
                                 res_word.syllables[si.syll_index].segments.remove(si.seg_index); // pop_front()
                                 res_word.syllables.insert(0, Syllable { segments: VecDeque::new(), stress: StressKind::Unstressed, tone: 0 });
                                 res_word.syllables.first_mut().unwrap().segments.push_front(seg);
+                                // the syllable the segment came from has moved up by one
+                                if res_word.syllables[si.syll_index + 1].segments.is_empty() {
+                                    res_word.syllables.remove(si.syll_index + 1);
+                                }
+                                continue;
                             }
                             if res_word.syllables[si.syll_index].segments.is_empty() {
                                 res_word.syllables.remove(si.syll_index);
